@@ -4,7 +4,18 @@
 #include "engine.hpp"
 #include "special.hpp"
 
+#include <sys/time.h>
+#include <signal.h>
 using namespace hist;
+
+// CPU-time watchdog per case: a case normally takes milliseconds; one that burns tens of CPU seconds
+// (ITIMER_VIRTUAL: process CPU time, not wall clock, so machine load does not matter) never returns
+// its promised result. The driver replays such a case three times before reporting it.
+static void on_cpu_limit(int) { const char m[] = "CASE-CPU-LIMIT\n"; ssize_t w = write(2, m, sizeof m - 1); (void)w; _exit(98); }
+static void arm_watchdog(int seconds) {
+  struct itimerval it; memset(&it, 0, sizeof it); it.it_value.tv_sec = seconds;
+  setitimer(ITIMER_VIRTUAL, &it, nullptr);
+}
 
 static std::string arg(int argc, char** argv, const char* name, const char* def = "") {
   for (int i = 1; i + 1 < argc; i++) if (!strcmp(argv[i], name)) return argv[i + 1];
@@ -52,7 +63,10 @@ int main(int argc, char** argv) {
   PropSpec ps = special::full_spec(prop, tier);
   if (ps.enabled == 0) { fprintf(rep, "unknown property %s\n", prop.c_str()); return 2; }
 
+  signal(SIGVTALRM, on_cpu_limit);
+  const int cpu_limit = tier.thorough ? 240 : 60;
   if (!replay.empty()) {
+    arm_watchdog(cpu_limit);
     std::string txt; History h; std::string err;
     if (!read_file(replay, txt) || !from_text(txt, h, &err)) { fprintf(rep, "REPLAY-ERROR cannot parse %s: %s\n", replay.c_str(), err.c_str()); return 2; }
     CaseResult cr = special::run_any(h, ps, nullptr);
@@ -68,6 +82,7 @@ int main(int argc, char** argv) {
 
   auto one = [&](const History& h) -> bool {
     cur.put(to_text(h));
+    arm_watchdog(cpu_limit);
     CaseResult cr = special::run_any(h, ps, &st);
     if (cr.failed) { failed = true; ff = cr.first; fh = h; return false; }
     return true;
